@@ -81,6 +81,17 @@ def run(ctx: Ctx):
     plan += [("fulldiv", 8), ("fulldiv", 40), ("zero3D", 1), ("zero4D", 1), ("fulldiv", 9)]
     for alg in ("ico", "cube3D", "randomS", "cube4D", "randomQ", "fulldiv", "zero3D", "zero4D"):
         events.append(grid_event(alg, 1, byname=True))
+    # a zero algorithm always has N = 1, whatever size is requested from the factory
+    for alg in ("zero3D", "zero4D"):
+        for N in (2, 3, 5):
+            e = grid_event(alg, N)
+            e["n"], e["byname"], e["requested"] = 1, True, N
+            if e["rows"] == 1 and not e["err"]:
+                with quiet():
+                    g0 = create(alg, N)
+                    G0 = np.asarray(g0.get_grid_as_array(only_upper=True) if DIM[alg] == 4 else g0.get_grid_as_array(), dtype=float)
+                e["first"] = [int(round(x)) if abs(x - round(x)) < 1e-12 else 99 for x in G0[0]]
+            events.append(e)
     if thorough:
         plan.append(("fulldiv", 272))
     for alg, N in plan:
